@@ -13,10 +13,14 @@ macro("FINV1", ["c", "s"],
       " and fprog(c, s).shard._shard_writer is not None"
       " and fprog(c, s).shard._shard_writer.nrec == fprog(c, s).written_examples"
       " and not fprog(c, s).shard._shard_writer.closed"
+      " and SHARD_OK(fprog(c, s).shard) and fprog(c, s).shard._dataset_path == c._dataset_root_path"
+      # an open shard is not listed anywhere yet (its count still changes)
+      " and forall(lambda t, i: implies(t in c._shards_lists and 0 <= i and i < len(c._shards_lists[t].shard_files),"
+      "       c._shards_lists[t].shard_files[i] is not fprog(c, s).shard.shard_info), t='U')"
       # an empty open shard carries no label (so a label change never closes an empty shard)
       " and implies(fprog(c, s).written_examples == 0, not truthy(fprog(c, s).shard.shard_info.custom_metadata))")
 macro("FINV", ["c"],
-      "c._examples_per_shard >= 1"
+      "c._examples_per_shard >= 1 and SAFE(c._relative_path_from_split) and CTX_LISTS_OK(c)"
       " and forall(lambda s: implies(s in c._current_shards_progress, FINV1(c, s)), s='U')"
       # distinct splits use distinct progress / shard / info / writer objects
       " and forall(lambda s, t: implies(s in c._current_shards_progress and t in c._current_shards_progress and s != t,"
@@ -40,17 +44,6 @@ contract(MS_, "Shard.write", props=["C10", "C18", "C04"],
         ("C18", "implies(self._shard_writer is not None, self._shard_writer.nrec == old(self._shard_writer.nrec))"),
     ]})
 
-contract(MS_, "Shard.close", props=["C10", "C04", "C16"],
-    params={}, returns="ref:ShardInfo",
-    modifies=["Shard._shard_writer@self", "Writer.closed@self._shard_writer", "FileInfo.hash_checksums@self.shard_info.file_infos[0]", "ghost:fs"],
-    ensures=[
-        "result is self.shard_info",
-        "self._shard_writer is None",
-        "old(self._shard_writer) is not None",
-    ],
-    raises={"ValueError": ["old(self._shard_writer) is None"]},
-    verify=False, assumed=True, note="verified separately in c30 (needs the file-system ghost)")
-
 # abstract writer (each concrete writer is verified against this in c50_writers)
 contract("sedpack/io/shard/shard_writer_base.py", "ShardWriterBase.write",
     props=["C18", "C10", "C04"], cls="Writer", params={"values": "U"},
@@ -73,22 +66,10 @@ contract(MF, CTX + "._get_new_shard", props=["C10", "C11", "C18"],
         "result.shard_info.number_of_examples == 0",
         "result._shard_writer.nrec == 0 and not result._shard_writer.closed",
         "not truthy(result.shard_info.custom_metadata)",
+        "SHARD_OK(result) and result._dataset_path == self._dataset_root_path",
     ],
     verify=False, assumed=True,
     note="constructor glue (Shard.__init__, get_shard_writer, pydantic ShardInfo/FileInfo); checked by the run-time contract in harness/c_filler.py")
-
-contract(MF, CTX + ".close_shard", props=["C10", "C04", "C18"],
-    params={"shard": "ref:Shard", "split": "U"},
-    requires=[
-        ("C10", "shard.shard_info.number_of_examples >= 1"),     # never close an empty shard
-        "shard._shard_writer is not None",
-    ],
-    modifies=["Shard._shard_writer@shard", "Writer.closed@shard._shard_writer",
-              "FileInfo.hash_checksums@shard.shard_info.file_infos[0]",
-              "_DatasetFillerContext._shards_lists@self", "ShardsList.shard_files", "ShardsList.number_of_examples",
-              "ghost:fs"],
-    ensures=["shard._shard_writer is None"],
-    verify=False, assumed=True, note="verified in c30_metadata.py (needs ShardsList contracts)")
 
 _WE_MOD = ["ShardProgress.shard", "ShardProgress.written_examples",
            "ShardInfo.number_of_examples", "ShardInfo.custom_metadata", "Writer.nrec",
@@ -99,7 +80,7 @@ _WE_MOD = ["ShardProgress.shard", "ShardProgress.written_examples",
 
 contract(MF, CTX + ".write_example", props=["C10", "C11", "C18", "C04"],
     params={"values": "U", "split": "U", "custom_metadata": "optref:DictObj"},
-    requires=["FINV(self)"],
+    requires=["FINV(self)", "SAFE(split)"],
     modifies=_WE_MOD,
     at_call={"close_shard": [
         # C10: a shard closed by a write is full unless the label changed
@@ -130,9 +111,10 @@ contract(MF, CTX + ".write_example", props=["C10", "C11", "C18", "C04"],
         ("C10", "forall(lambda t: implies(t != split, (t in self._current_shards_progress) == old(t in self._current_shards_progress)), t='U')"),
     ],
     raises={"Exception": [
-        # C18: a rejected write leaves the context consistent, counts unchanged
-        ("C18", "FINV(self)"),
-        ("C18", "implies(old(split in self._current_shards_progress) and fprog(self, split).shard is old(fprog(self, split).shard),"
+        # C18: a rejected write (the shard of `split` is still open) leaves the context consistent, counts unchanged
+        ("C18", "implies(split in self._current_shards_progress and fprog(self, split).shard._shard_writer is not None, FINV(self))"),
+        ("C18", "implies(old(split in self._current_shards_progress) and fprog(self, split).shard is old(fprog(self, split).shard)"
+                "        and fprog(self, split).shard._shard_writer is not None,"
                 "   fprog(self, split).written_examples == old(fprog(self, split).written_examples)"
                 "   and fprog(self, split).shard._shard_writer.nrec == old(fprog(self, split).shard._shard_writer.nrec))"),
         # ... and the label of a non-empty shard is not changed by a rejected write
